@@ -499,6 +499,14 @@ def run_target_function(
         # execute the transaction and yield output states
         yield from sevm.run_message(ex, message, path)
 
+        # this call has its own SEVM (and logs): report its loop-bound hits here,
+        # they would otherwise be dropped silently
+        if sevm.logs.bounded_loops:
+            warn_code(
+                LOOP_BOUND,
+                f"{fun_info.sig}: paths have not been fully explored due to the loop unrolling bound: {args.loop}",
+            )
+
     finally:
         reset(solver)
 
